@@ -10,7 +10,8 @@ recognisers and the backtracking matcher (Lemmas/Lex*.lean), not by enumeration.
   impl_iff               accepted ↔ (in the lexical space ∧ ¬ narrow) ∨ deviation      every datatype
   spec_accepted_partial  in the lexical space → ¬ narrow → accepted
   boolean_exact, code_exact, data_exact      plain ↔ where implementation = spec
-  enum_exact             enumerated fields accept exactly the enumerators
+  enum_exact             enumerated fields accept exactly the enumerators (value not split)
+  multi_enum_exact       enumerated MultipleValueString: exactly the blank-delimited lists of enumerators
   error_kind             nothing but the library's FIXMessageError ever escapes
 
 `narrow` / `deviation` (Model/LexClass.lean) are explicit decidable predicates = the open findings:
@@ -182,10 +183,12 @@ theorem deviation_only_times (cfg : Cfg) (t : FType) (s : Str) (h : deviation cf
 
 /-! ### enumerated fields -/
 
-/-- a field with enumerators accepts exactly its enumerators (whatever its type and tag) -/
+/-- an enumerated field of any type other than MultipleValueString accepts exactly its enumerators (whatever
+its type and tag); the value is NOT split -/
 theorem enum_exact (cfg : Cfg) (tag16 : Bool) (t : FType) (values : List Str) (hv : values ≠ [])
     (hne : [] ∉ values) (s : Str) :
-    validateValue cfg { tag16 := tag16, ftype := t, values := values } (.str s) = .ok ↔ s ∈ values := by
+    validateValue cfg { tag16 := tag16, ftype := t, multi := false, values := values } (.str s) = .ok ↔
+      s ∈ values := by
   unfold validateValue
   cases s with
   | nil => simp [hne]
@@ -193,9 +196,69 @@ theorem enum_exact (cfg : Cfg) (tag16 : Bool) (t : FType) (values : List Str) (h
     have : values.isEmpty = false := by cases values <;> simp_all
     simp [this]
 
+theorem splitBlank_cons (s : Str) : ∃ t ts, splitBlank s = t :: ts := by
+  induction s with
+  | nil => exact ⟨[], [], rfl⟩
+  | cons c cs ih =>
+    obtain ⟨t, ts, h⟩ := ih
+    by_cases hc : c = 32
+    · exact ⟨[], splitBlank cs, by simp [splitBlank, hc]⟩
+    · exact ⟨c :: t, ts, by simp [splitBlank, hc, h]⟩
+
+/-- `value.split(" ")` with every token tested = the SPEC's walk over the value (accumulator version) -/
+theorem memberList_split (members : List Str) (s : Str) :
+    ∀ cur t ts, splitBlank s = t :: ts →
+      LexSpec.memberList members s cur = (members.contains (cur.reverse ++ t) && ts.all members.contains) := by
+  induction s with
+  | nil =>
+    intro cur t ts h
+    simp only [splitBlank, List.cons.injEq] at h
+    obtain ⟨rfl, rfl⟩ := h
+    simp [LexSpec.memberList]
+  | cons c cs ih =>
+    intro cur t ts h
+    obtain ⟨t', ts', h'⟩ := splitBlank_cons cs
+    by_cases hc : c = 32
+    · subst hc
+      simp only [splitBlank, ↓reduceIte, List.cons.injEq] at h
+      obtain ⟨rfl, rfl⟩ := h
+      simp only [LexSpec.memberList, beq_self_eq_true, ↓reduceIte, List.append_nil]
+      rw [ih [] t' ts' h', h']
+      simp
+    · have hb : (c == 32) = false := by simpa using hc
+      simp only [splitBlank, hc, ↓reduceIte, h', List.cons.injEq] at h
+      obtain ⟨rfl, rfl⟩ := h
+      simp only [LexSpec.memberList, hb, Bool.false_eq_true, ↓reduceIte]
+      rw [ih (c :: cur) t' ts' h']
+      simp
+
+/-- an enumerated MultipleValueString field accepts exactly the lists of enumerators delimited by
+single blanks (no empty value: leading, trailing or doubled blanks are rejected) -/
+theorem multi_enum_exact (cfg : Cfg) (tag16 : Bool) (t : FType) (values : List Str) (hv : values ≠ [])
+    (hne : [] ∉ values) (s : Str) :
+    validateValue cfg { tag16 := tag16, ftype := t, multi := true, values := values } (.str s) = .ok ↔
+      LexSpec.isMemberList values s = true := by
+  have hspec : LexSpec.isMemberList values s = (splitBlank s).all values.contains := by
+    obtain ⟨t', ts', h'⟩ := splitBlank_cons s
+    unfold LexSpec.isMemberList
+    rw [memberList_split values s [] t' ts' h', h']
+    simp
+  rw [hspec]
+  unfold validateValue
+  cases s with
+  | nil => simp [splitBlank, hne]
+  | cons c cs =>
+    have : values.isEmpty = false := by cases values <;> simp_all
+    simp [this]
+
 example : ([[49], [50]] : List Str) ≠ [] ∧ ([] : Str) ∉ ([[49], [50]] : List Str) ∧
     validateValue {} { tag16 := false, ftype := .char, values := [[49], [50]] } (.str [50]) = .ok ∧
-    validateValue {} { tag16 := false, ftype := .char, values := [[49], [50]] } (.str [51]) = .fme := by
+    validateValue {} { tag16 := false, ftype := .char, values := [[49], [50]] } (.str [51]) = .fme ∧
+    -- "1 2" : accepted by the MultipleValueString field, rejected (not split) by the char field; "1  2" rejected
+    validateValue {} { tag16 := false, ftype := .string, multi := true, values := [[49], [50]] } (.str [49, 32, 50]) = .ok ∧
+    validateValue {} { tag16 := false, ftype := .string, multi := false, values := [[49], [50]] } (.str [49, 32, 50]) = .fme ∧
+    validateValue {} { tag16 := false, ftype := .string, multi := true, values := [[49], [50]] } (.str [49, 32, 32, 50]) = .fme ∧
+    LexSpec.isMemberList [[49], [50]] [49, 32, 50] = true := by
   decide +kernel
 
 /-! ### error kind -/
@@ -216,7 +279,8 @@ theorem error_kind (cfg : Cfg) (f : Field) (v : PyVal) (k : String) : validateVa
     | cons c cs =>
       simp only [List.isEmpty_cons, Bool.false_eq_true, ↓reduceIte]
       split
-      · split <;> simp
+      · repeat' split
+        all_goals simp
       · have hnr := LexStr.validateTyped_not_raised cfg f.ftype (c :: cs) (by simp)
         cases hv : validateTyped cfg f.ftype (c :: cs) with
         | raised k' => exact absurd hv (hnr k')
